@@ -3,6 +3,7 @@ import Req.Client.Rfc7616
 import Req.Lemmas.C20Quote
 import Req.Lemmas.C20Select
 import Req.Lemmas.C20Meaning
+import Req.Lemmas.C20MeaningErr
 /-!
 C20 — digest authentication, property theorems about the REPAIRED code (`Req.DigestAuth`,
 fixes/C20-5): part 1, from a parsed challenge to the verdict of the verifier, and the middleware.
@@ -603,6 +604,37 @@ theorem unanswerable_errors (H : Alg → Bytes → Bytes)
       exact ⟨_, rfl⟩
   obtain ⟨e', he'⟩ := this
   exact ⟨e', malformed_challenge_errors H user pass method uri body rnd _ e' ⟨rfl, rfl⟩ he'⟩
+
+/-- **meaningless_refused**: a response whose field lines are well written element by element but
+have NO meaning as a list of challenges — a parameter before any scheme, a parameter name for the
+second time in one challenge (RFC 7235 section 2.1), a token68 on a Digest challenge, a charset
+other than UTF-8 on a Digest challenge — is an ERROR: a malformed challenge is never answered,
+whatever else the response contains. -/
+theorem meaningless_refused (H : Alg → Bytes → Bytes)
+    (ls : List (List Elem)) (hne : ls ≠ []) (hl : ∀ l ∈ ls, l ≠ []) (hok : ∀ l ∈ ls, ∀ x ∈ l, x.OK)
+    (hm : meaning (ls.flatten.map (·.e)) = none)
+    (user pass method uri : Bytes) (body : Body) (rnd : Option Bytes) :
+    ∃ e, handle H algOf user pass method uri body rnd
+      { err := false, status := 401, wwwAuth := ls.map lineRender } = .failed e := by
+  have : ∃ e', createDigestAuth H algOf (ls.map lineRender) { user, pass, method, uri } rnd = .error e' := by
+    unfold createDigestAuth
+    simp only
+    split
+    · exact ⟨_, rfl⟩
+    · rw [commaJoin_lines ls hne hl,
+        parseChallenge_render algOf _ (joinLines_ne_nil ls hne hl) (joinLines_ok ls hok), joinLines_e]
+      obtain ⟨e, he⟩ := absElems_meaning_none _ hm
+      rw [he]
+      exact ⟨_, rfl⟩
+  obtain ⟨e', he'⟩ := this
+  exact ⟨e', malformed_challenge_errors H user pass method uri body rnd _ e' ⟨rfl, rfl⟩ he'⟩
+
+/-- e.g. `Digest realm="a", nonce="n", Realm="b"` and `realm="a", Digest nonce="n"` -/
+example : meaning [.schemeParam b!"Digest" b!" " ⟨b!"realm", [], [], plainQ b!"a"⟩,
+      .param ⟨b!"nonce", [], [], plainQ b!"n"⟩, .param ⟨b!"Realm", [], [], plainQ b!"b"⟩] = none ∧
+    meaning [.param ⟨b!"realm", [], [], plainQ b!"a"⟩,
+      .schemeParam b!"Digest" b!" " ⟨b!"nonce", [], [], plainQ b!"n"⟩] = none := by
+  constructor <;> rfl
 
 /-- Conversely, when the first answerable Digest challenge exists, entropy is available and the
 values can be carried by a header field, the request IS sent again (request without body). -/
